@@ -1437,3 +1437,16 @@ package otr3
 //@   invariant rdOK(r) && rdpos(r) >= old(rdpos(r)) && (as == nil || fresh(as))
 //@   decreases rdlen(r) - rdpos(r)
 //@ func ImportKeys
+
+// ---------------------------------------------------------------------------
+// key-file export (keys.go): the text handed to the bufio.Writer, as a term over the ghost field
+// wout (C17: what exportName/exportProtocol write is what readAccountName/readAccountProtocol read)
+// ---------------------------------------------------------------------------
+//@ func exportName
+//@   requires w != nil
+//@   modifies wout(w)
+//@   ensures [C17.export.name] wout(w) == scat(scat(scat(scat(old(wout(w)), "    "), "(name \""), n), "\")\n")
+//@ func exportProtocol
+//@   requires w != nil
+//@   modifies wout(w)
+//@   ensures [C17.export.protocol] wout(w) == scat(scat(scat(scat(old(wout(w)), "    "), "(protocol "), n), ")\n")
